@@ -30,6 +30,7 @@ func runC08(o opts) error {
 	} else {
 		rng := rand.New(rand.NewSource(o.seed))
 		scns = append(scns, c08.Fixed()...)
+		scns = append(scns, c08.CloseThenReturn()...)
 		n := 300
 		if o.tier == "thorough" {
 			n = 4000
@@ -57,12 +58,12 @@ func runC08(o opts) error {
 		return err
 	}
 	raw := runChildren("c08child", o.out, scns, func(i int, msg string) any {
-		return &c08.Result{Items: []map[string]any{}, Panic: msg}
+		return &c08.Result{Items: []map[string]any{}, Panic: msg, StopRets: -1}
 	})
 	for i, sc := range scns {
 		var r c08.Result
 		if raw[i] == nil || json.Unmarshal(raw[i], &r) != nil {
-			r = c08.Result{Items: []map[string]any{}, Hang: "no result from child"}
+			r = c08.Result{Items: []map[string]any{}, Hang: "no result from child", StopRets: -1}
 		}
 		if r.Items == nil {
 			r.Items = []map[string]any{}
@@ -71,7 +72,7 @@ func runC08(o opts) error {
 			r.Items = []map[string]any{}
 		}
 		ev := trace.Ev{"ev": "run", "in": sc.Input(), "items": r.Items, "closed": r.Closed, "kept": r.Kept,
-			"panic": r.Panic, "hang": r.Hang, "drift": r.Drift, "early": r.EarlyEnd || sc.CloseAt >= 0, "ambig": r.Ambig}
+			"panic": r.Panic, "hang": r.Hang, "drift": r.Drift, "early": r.EarlyEnd || sc.CloseAt >= 0, "ambig": r.Ambig, "stopRets": r.StopRets}
 		sink.Put(&trace.Scenario{Ord: i, Desc: sc, Note: r.Panic + r.Hang + r.Drift, Sig: sc.Kind,
 			Events: []trace.Ev{{"ev": "reset"}, ev}})
 	}
